@@ -74,6 +74,7 @@ class Executor(object):
         self.effects = []       # stores to objects older than the watched call (C18)
         self.watch = None
         self.fdivs = []
+        self.fdiv_seen = {}
         self.alloc_epoch = {}
         self.funcs_used = set()
         self.notes = set()
@@ -91,7 +92,10 @@ class Executor(object):
         return oid
 
     def note_fdiv(self, rb):
-        self.fdivs.append(rb)
+        k = rb.get_id()
+        if k not in self.fdiv_seen:
+            self.fdiv_seen[k] = rb
+            self.fdivs.append(rb)
 
     def oblige(self, kind, st, cond, label, pos='', extra=None):
         self.obls.append(Obligation(kind, st.pc, cond, label, pos, extra))
@@ -385,6 +389,9 @@ class Executor(object):
                         nxt = blk['succs'][0] if c else blk['succs'][1]
                         break
                     self.stats['sym_ifs'] += 1
+                    if self.debug_merge is not None:
+                        kk = (fn.name.rsplit('.', 1)[-1], b)
+                        self.debug_merge[kk] = self.debug_merge.get(kk, 0) + 1
                     nc = b_not(c)
                     ft = ff = True
                     if fn.loopctl[b]:
@@ -589,6 +596,10 @@ class Executor(object):
             return b_not(x) if y else x
         if x.eq(y):
             return False
+        if z3.is_not(x) and z3.is_not(y):
+            x, y = x.arg(0), y.arg(0)
+        if x.get_id() > y.get_id():
+            x, y = y, x
         return z3.Xor(x, y)
 
     def ref_eq(self, x, y):
